@@ -13,7 +13,7 @@
          C19_window_everywhere, C19_postInit_window, C19_window_reaches_drawing, C19_top_level_window_drawn
    (b) "the obstacle shapes drawn are exactly the occupancies the model reports …"
          C19_shapes_iff_prescribed, C19_only_occupancies_drawn, C19_scenario_shapes, C19_nothing_iff_no_occupancy,
-         C19_witness_inverted_window (why `time_begin ≤ time_end` is assumed), C19_frames_independent (several frames on one renderer)
+         C19_witness_inverted_window (why `time_begin ≤ time_end` is assumed), C19_frames_independent, C19_show_after_clearing (several frames / operation histories on one renderer)
    (c) "all lanelets (or exactly the selected ones) are drawn"        C19_id_filter (definitional)
    (d) "drawing … and rendering the figure completes without an exception"
          C19_total_full (statement about an implementation), C19_total_selection_partial, C19_total_net_partial,
@@ -370,6 +370,24 @@ theorem C19_frames_independent : ∀ (frs : List Frame) (b : Buffers), b.patches
     simp only [showFrames, List.map_cons, Frame.draw, hb, List.nil_append, List.cons.injEq, true_and]
     exact C19_frames_independent rest _ rfl
 
+/-- Any history of the renderer's public operations (draws, `clear`, `render` with either flag, `render_dynamic`),
+    then a `clear(keep)` or a `render(keep)` (either flag), then the draws of one more frame, then a show (`render` or
+    `render_dynamic`): what that show displays is exactly the patches of the draws since the clearing operation —
+    nothing of the history before survives in `obstacle_patches`.  Covers `create_video`'s frame step
+    (`clear(); draw_list(...); render_dynamic()`) and a `clear()` after a draw that raised half-way. -/
+theorem C19_show_after_clearing (pre : List ROp) (b : Buffers) (c sh : ROp) (ds : List Frame)
+    (hc : (∃ k, c = .clear k) ∨ (∃ k, c = .render k)) (hs : (∃ k, sh = .render k) ∨ sh = .renderDynamic) :
+    ((runOps b (pre ++ [c] ++ ds.map ROp.draw ++ [sh])).getLast?.map (·.patches)) =
+      some (ds.flatMap (fun fr => drawScenario fr.flags fr.obstacles)) := by
+  have hclr : (stateAfter b (pre ++ [c])).patches = [] := by
+    rw [stateAfter_append]
+    rcases hc with ⟨k, rfl⟩ | ⟨k, rfl⟩ <;> simp [stateAfter, clearBuffers]
+  have hst : (stateAfter b (pre ++ [c] ++ ds.map ROp.draw)).patches =
+      ds.flatMap (fun fr => drawScenario fr.flags fr.obstacles) := by
+    rw [stateAfter_append, stateAfter_draws, hclr, List.nil_append]
+  rw [runOps_append]
+  rcases hs with ⟨k, rfl⟩ | rfl <;> simp only [runOps, List.getLast?_concat, Option.map_some, hst]
+
 /-- … and the static artists survive a render iff it was asked to keep them.
     (definitional: documents `clearBuffers`, the model of `MPRenderer.clear`; carries no proof content) -/
 theorem C19_static_kept_iff (keep : Bool) (b : Buffers) :
@@ -433,6 +451,10 @@ theorem C19_total_light_labels_partial (showLabel : Bool) (ls : List LightInfo) 
 
 /-- `position[0]` on an uncertain position (label / icon / state marker before the repairs). -/
 theorem C19_witness_index_shape : anchorUnguarded ⟨true, false, false⟩ = .error .type := by rfl
+
+/-- NOT repaired (known finding): a dashed marking on a bound shorter than the marking width gives no dash start, and
+    the last dash end is indexed all the same — `IndexError` (corpus/C19/known_dashed_marking_short_bound.json). -/
+theorem C19_witness_dashed_short_bound : dashEndsUnguarded 0 = .error .index := by rfl
 
 /-- `np.concatenate([])` with `draw_border_vertices` and `draw_ids = []` before the repair. -/
 theorem C19_witness_unguarded_border :
